@@ -553,6 +553,85 @@ pub fn run(p: &Params) -> Outcome {
             cross!("String,String", String, String, Ty::Map(Box::new(Ty::Str), Box::new(Ty::Str)));
             cross!("i32,Vec<String>", i32, Vec<String>, Ty::Map(Box::new(Ty::I32), Box::new(Ty::Seq(Box::new(Ty::Str)))));
         }
+
+        // ---- streams: many values of mixed types written by ONE encoder into one buffer and read back by ONE decoder - whatever
+        // an encoder / decoder carries from one value to the next (positions, counters, guards) is exercised over hundreds of values
+        let nstreams = match (scale, thorough) { ("native", false) => 40, ("native", true) => 600, ("sanitizer", false) => 6, ("sanitizer", true) => 60, (_, false) => 1, _ => 2 };
+        for si in 0..(nstreams / shards as u64).max(1) {
+            let len = if scale == "miri" { 60 } else { 150 + rng.below(450) as usize };
+            // a stream leans towards one kind of value (every third stream: towards empty collections of one kind)
+            let lean = (si + shard as u64) % 9;
+            #[derive(Clone, Debug, PartialEq)]
+            enum Item { B(bool), U8(u8), I32(i32), VI(i64), VU(u64), S(String), V(Vec<u8>), VV(Vec<Vec<u16>>), H(HashMap<u8, u8>), T(BTreeMap<u8, u8>), HS(HashMap<String, Vec<i32>>) }
+            let mut items: Vec<Item> = Vec::with_capacity(len);
+            for _ in 0..len {
+                let kind = if rng.chance(1, 2) { lean + 2 } else { rng.below(11) };
+                let small = rng.below(4) as usize;
+                let n = if rng.chance(2, 3) { 0 } else { small };
+                items.push(match kind {
+                    0 => Item::B(rng.chance(1, 2)),
+                    1 => Item::U8(rng.next() as u8),
+                    2 => Item::I32(rng.next() as i32),
+                    3 => Item::VI((rng.next() as i64) >> (2 + rng.below(60))),
+                    4 => Item::VU(rng.next() >> (2 + rng.below(60))),
+                    5 => Item::S(val_to_string(&gen_val(&Ty::Str, &mut rng, 0))),
+                    6 => Item::V((0..n).map(|_| rng.next() as u8).collect()),
+                    7 => Item::VV((0..n).map(|_| (0..rng.below(3)).map(|_| rng.next() as u16).collect()).collect()),
+                    8 => Item::H((0..n).map(|_| (rng.next() as u8, rng.next() as u8)).collect()),
+                    9 => Item::T((0..n).map(|_| (rng.next() as u8, rng.next() as u8)).collect()),
+                    _ => Item::HS((0..n).map(|i| (format!("k{i}"), vec![rng.next() as i32])).collect()),
+                });
+            }
+            out.evaluations += len as u64;
+            let r = catch_unwind(AssertUnwindSafe(|| -> Option<(String, String)> {
+                let mut buf: Vec<u8> = Vec::new();
+                {
+                    let mut enc = Encoder::from(&mut buf);
+                    for (i, it) in items.iter().enumerate() {
+                        let r = match it {
+                            Item::B(v) => enc.encode(*v), Item::U8(v) => enc.encode(*v), Item::I32(v) => enc.encode(*v),
+                            Item::VI(v) => enc.encode_varint(*v), Item::VU(v) => enc.encode_varuint(*v), Item::S(v) => enc.encode(v),
+                            Item::V(v) => enc.encode(v), Item::VV(v) => enc.encode(v), Item::H(v) => enc.encode(v), Item::T(v) => enc.encode(v),
+                            Item::HS(v) => enc.encode(v),
+                        };
+                        if let Err(e) = r {
+                            return Some(("stream-encode-failed".into(), format!("value {i} ({it:?}) of a stream of {} could not be encoded: {e:?}", items.len())));
+                        }
+                    }
+                }
+                let exact: Box<[u8]> = buf.as_slice().into();
+                let mut dec = Decoder::from(&exact[..]);
+                for (i, it) in items.iter().enumerate() {
+                    let back: Result<Item, String> = match it {
+                        Item::B(_) => dec.decode().map(Item::B).map_err(|e| format!("{e:?}")), Item::U8(_) => dec.decode().map(Item::U8).map_err(|e| format!("{e:?}")),
+                        Item::I32(_) => dec.decode().map(Item::I32).map_err(|e| format!("{e:?}")), Item::VI(_) => dec.decode_varint::<i64>().map(Item::VI).map_err(|e| format!("{e:?}")),
+                        Item::VU(_) => dec.decode_varuint::<u64>().map(Item::VU).map_err(|e| format!("{e:?}")), Item::S(_) => dec.decode().map(Item::S).map_err(|e| format!("{e:?}")),
+                        Item::V(_) => dec.decode().map(Item::V).map_err(|e| format!("{e:?}")), Item::VV(_) => dec.decode().map(Item::VV).map_err(|e| format!("{e:?}")),
+                        Item::H(_) => dec.decode().map(Item::H).map_err(|e| format!("{e:?}")), Item::T(_) => dec.decode().map(Item::T).map_err(|e| format!("{e:?}")),
+                        Item::HS(_) => dec.decode().map(Item::HS).map_err(|e| format!("{e:?}")),
+                    };
+                    match back {
+                        Ok(b) if &b == it => {}
+                        Ok(b) => return Some(("stream-value-differs".into(), format!("value {i} of a stream of {} values decoded as {b:?}, written {it:?}", items.len()))),
+                        Err(e) => return Some(("stream-decode-failed".into(), format!("value {i} ({it:?}) of a stream of {} values (one decoder for all): {e}", items.len()))),
+                    }
+                }
+                if dec.remaining() != 0 {
+                    return Some(("stream-remaining".into(), format!("{} bytes left after a stream of {} values", dec.remaining(), items.len())));
+                }
+                None
+            }));
+            match r {
+                Ok(None) => {}
+                Ok(Some((sig, what))) => fail(&mut out, &sig, what),
+                Err(_) => {
+                    let info = crate::LAST_PANIC.lock().unwrap().take().unwrap_or_default();
+                    fail(&mut out, &format!("panic:{}", info), format!("stream of {} values panicked: {}", items.len(), info));
+                }
+            }
+            out.count("streams", 1);
+            out.count("stream_values", len as u64);
+        }
         out
     });
     let mut total = total;
